@@ -747,6 +747,7 @@ pub fn dump_case(env: &Env, run: u64, case: usize, signal: u64) -> i32 {
 
 pub fn main(env: &Env) -> i32 {
     let mut rep = Report::new("C12", if env.thorough { "exploration" } else { "fault_enumeration" }, env);
+    rep.expected_probes = vec!["fault.field_set", "fault.bit_flip", "fault.byte_set", "fault.record_swap", "fault.record_copy", "fault.zero_range", "fault.garbage_fill", "fault.append_garbage", "fault.truncate", "images_accepted_by_parse", "images_rejected_by_parse"];
     rep.stubs = vec!["SimDisk corruption operators on the stored cache image: field set, bit flip, record swap/copy (misdirected write), string length prefix, UTF-8 byte, zeroed sector / tail (lost write), garbage fill, appended garbage".into()];
     rep.assumptions = vec![
         "built with overflow-checks and debug-assertions on, so arithmetic overflow is a panic and not a silent wrap".into(),
